@@ -223,8 +223,12 @@ func (vm *VM) Run(program *Program, env interface{}) (out interface{}, err error
 			min := toInt(a)
 			max := toInt(b)
 			size := max - min + 1
+			if max < min {
+				// An empty range creates no elements.
+				size = 0
+			}
 			vm.verifAllocReq(size)
-			if vm.memory+size >= vm.limit {
+			if size < 0 || size >= vm.limit-vm.memory {
 				panic("memory budget exceeded")
 			}
 			vm.push(makeRange(min, max))
